@@ -10,6 +10,13 @@ PROPS = {
         "probes": ["tombstone_created", "rehash_in_place", "resize_up", "shrink", "shrink_to_singleton", "small_table", "one_group_table", "multi_group_table", "tombstone_reused", "insert_at_full_load"],
         "rule": "one evaluation = one simulated run: a seeded history of 10-400 HashMap operations over 3 map slots under a per-slot hash plan, every return value compared with an association-list model and the table dumped and swept after every step; non-trivial = the run contains at least one structural event (tombstone creation/reuse, in-place rehash, resize, shrink) ; distinct = distinct signatures (sequence of operation kinds + structural events), counted with a k-minimum-values sketch (exact below 4096)",
     },
+    "C04": {
+        "level": "fault_enumeration",
+        "quick": [("A", 3000)],
+        "thorough": [("A", 80000), ("C", 20000)],
+        "probes": ["panic_in_resize", "panic_in_rehash_in_place", "panic_in_clone", "panic_in_drop", "panic_in_pred", "panic_in_eq", "panic_in_hash_lookup"],
+        "rule": "one evaluation = one execution of a scenario; each seeded scenario is first executed fault-free to count the callback invocations of every class inside every operation, then re-executed with the k-th invocation of one class panicking inside one target operation, for every k (thorough) or k in {1, last, 2 random} (quick); non-trivial = a fault fired or a structural event occurred; distinct = distinct signatures (operation kinds + structural events + fired fault class), k-minimum-values sketch",
+    },
 }
 
 DEFAULT_SEED = 20261002
@@ -31,7 +38,7 @@ NOT_APPLICABLE = {
     "C16": "Send/Sync markers, variance and borrow lifetimes are decided entirely by the type checker on generic obligations: there is no execution, schedule or fault for a deterministic simulator to drive or observe (DESIGN section 11)",
     "C17": "pure integer arithmetic whose stated quantifier is an exhaustive enumeration of capacities x sizes x alignments: no schedule, clock, fault or interleaving; seeded simulation would only be input generation under another name (DESIGN section 11)",
 }
-for _p in ["C02", "C03", "C04", "C05", "C06", "C07", "C08", "C09", "C10", "C11", "C12", "C13", "C14", "C15", "C18", "C19", "C20"]:
+for _p in ["C02", "C03", "C05", "C06", "C07", "C08", "C09", "C10", "C11", "C12", "C13", "C14", "C15", "C18", "C19", "C20"]:
     NOT_APPLICABLE.setdefault(_p, NA_TECH)
 
 _TB = "trusts rustc/std, the system allocator under SimAlloc, the reference model and oracles in hbsim; x86-64 only; sampling, not enumeration"
@@ -41,5 +48,11 @@ LEVEL_TEXT = {
         "design_ref": "DESIGN.md section 9 C01",
         "note": _TB,
         "technique": "deterministic simulation (fault-free configuration): seeded histories under simulator-owned hash plans vs reference model",
+    },
+    "C04": {
+        "text": "fault enumeration: every seeded scenario is executed fault-free to count callback invocations per class inside every operation, then re-executed with the k-th Hash/Eq/Clone/Drop/predicate/source-iterator callback panicking inside a target operation, for every k (thorough) or a sample of k (quick); after the unwind the dump invariants, ledger, allocator balance, len()==yielded==found, survivor-explained and grow-unchanged oracles run, the model is re-synchronised and the run continues under full checking. Enumerates crash points exactly for the sampled (state, operation) pairs; states are sampled",
+        "design_ref": "DESIGN.md section 9 C04, section 10",
+        "note": _TB + "; Into-conversion panics (F6) are only reachable through entry_ref",
+        "technique": "deterministic simulation with fault injection: panic at the k-th callback invocation, enumerated over k by exact re-execution",
     },
 }
